@@ -197,15 +197,18 @@ pub fn run_windows(d: &mut Driver, windows: usize) {
         d.sim.net.flights.clear();
         // choose a majority containing the leader
         let conf = d.sim.nodes[l].conf.clone();
-        let voters: Vec<u64> = conf.voters.iter().cloned().collect();
-        let need = voters.len() / 2 + 1;
+        // (a majority of each half when the configuration is joint)
+        let voters: Vec<u64> = conf.all_voters().into_iter().collect();
         let lid = d.sim.nodes[l].id;
         let mut maj: BTreeSet<u64> = BTreeSet::new();
         maj.insert(lid);
         let mut others: Vec<u64> = voters.iter().cloned().filter(|x| *x != lid).collect();
-        while maj.len() < need && !others.is_empty() {
+        while !conf.is_quorum(&maj) && !others.is_empty() {
             let i = d.rng.usize(others.len());
             maj.insert(others.swap_remove(i));
+        }
+        if conf.is_joint() {
+            d.sim.mon.stats.inc("c16.lockstep_windows_joint_conf");
         }
         // sometimes the majority is larger than minimal; learners may be on either side
         if !others.is_empty() && d.rng.chance(1, 4) {
